@@ -160,9 +160,8 @@ func c17Exec(c *fw.Ctx, cas c17Case) (nontrivial bool) {
 			if lua.Kind == "none" {
 				return goAns()
 			}
-			if lua.Kind == "defer-explicit" {
-				return "unpinned", 0, "" // an explicit defer from the first listener: not pinned by the statement
-			}
+			// an explicit defer from the first listener IS its answer ("defer falls back to policy;
+			// only the first hook that answers counts"): the later listener is not consulted
 		}
 		return lua.Kind, lua.Code, lua.Msg
 	}
